@@ -135,9 +135,6 @@ Definition any_idx (p : AnyPattern) : N :=
   | AnyQa q => 200 + QualityAssurance_idx q
   end.
 
-Definition tag_findings {P} (tag : P -> AnyPattern) (F : findings P) : findings AnyPattern :=
-  map (fun kv => (tag (fst kv), snd kv)) F.
-
 Definition line_with_prefix (pre : string) (report : string) : bool :=
   existsb (fun l => match strip_prefix pre l with Some _ => true | None => false end) (split_lines report).
 
